@@ -4,7 +4,11 @@ pub mod c05;
 pub mod c06;
 pub mod c07;
 pub mod c08;
+pub mod c15;
+pub mod c17;
+pub mod c18;
 pub mod c20;
+pub mod life;
 
 pub fn run(ctx: &mut Ctx) -> bool {
     match ctx.prop.as_str() {
@@ -12,6 +16,11 @@ pub fn run(ctx: &mut Ctx) -> bool {
         "C06" => c06::run(ctx),
         "C07" => c07::run(ctx),
         "C08" => c08::run(ctx),
+        "C09" => life::run(ctx, life::Flags { c09: true, c10: false }),
+        "C10" => life::run(ctx, life::Flags { c09: false, c10: true }),
+        "C15" => c15::run(ctx),
+        "C17" => c17::run(ctx),
+        "C18" => c18::run(ctx),
         "C20" => c20::run(ctx),
         _ => return false,
     }
